@@ -7,6 +7,7 @@ vm/vmExpr.go, vm/vmExprFunction.go, vm/vmLetExpr.go and the scope operations of 
 -/
 import Anko.Proofs.EvalCur
 import Anko.Proofs.EvalMono
+import Anko.Gen.ScopeFlow
 
 set_option linter.unusedSectionVars false
 set_option linter.unusedSimpArgs false
@@ -224,5 +225,27 @@ example :
 
 /-! ### Non-vacuity -/
 example : chain #[⟨none, []⟩, ⟨some 0, []⟩, ⟨some 0, []⟩] 5 2 = [2, 0] := by decide
+
+/-! ### the interpreter's own save / restore of the current scope (facts regenerated from vm/vmStmt.go on every run)
+
+The model restores `cur` by construction (`scope_restored_*` above); the Go code does it by hand, with one assignment in front
+of every exit of every statement function that enters a scope.  The extractor follows `runInfo.env` through the statement tree
+of each such function (abstract states: orig = the scope saved on entry is current again, swapped, mixed) and lists the state
+at every `return` and at the end of the body. -/
+
+/-- the one audited exception: runModuleStmt returns with the result of `e.NewModule(name)` in place when that call FAILS; it
+fails only for a name containing '.', which the grammar (`MODULE IDENT`) cannot produce -/
+def auditedExits : List (String × String × String) := [("runModuleStmt", "return#1", "swapped")]
+
+/-- At EVERY exit of every statement function that enters a scope - each return statement and the end of the body, on every
+path - the scope saved on entry has been put back. -/
+theorem every_exit_restores_the_scope :
+    (Gen.ScopeFlow.exits.filter (fun e => !auditedExits.contains e)).all (fun e => e.2.2 == "orig") = true ∧
+    auditedExits.all (fun e => Gen.ScopeFlow.exits.contains e) = true := by decide
+
+/-- the functions that enter a scope are the ones the model opens a scope in (if / try / loops / switch / module) -/
+theorem scope_entering_functions_are_the_modelled_ones :
+    Gen.ScopeFlow.scopeEnteringFunctions = ["runCForStmt", "runForStmt", "runIfStmt", "runLoopStmt", "runModuleStmt", "runSwitchStmt", "runTryStmt"] := by
+  decide
 
 end Anko.C04
